@@ -4,6 +4,7 @@ import shutil
 
 from vlib import diffexec
 from vlib import symeval as se
+from vlib.core import CaseTimeout
 from vlib import symmon
 
 PID = 'C10'
@@ -154,6 +155,8 @@ def guarded(col, what, sg, triple, fn):
                 {'triple': triple, 'report': exc.report})
     except se.Undefined as exc:
         col.add(f'{what}:{sg}:not-evaluable', f'{what}{triple}: result not evaluable ({exc})', {'triple': triple})
+    except CaseTimeout:
+        raise
     except Exception as exc:  # pylint: disable=broad-except
         col.add(f'{what}:{sg}:exception:{type(exc).__name__}', f'{what}{triple} raised {type(exc).__name__}: {exc}',
                 {'triple': triple})
@@ -451,6 +454,8 @@ def consumer_case(idx, rng, tier, ctx, k):
                 sf = Sourcefile.from_source(src)
                 trafo(sf['kern'])
                 new = sf.to_fortran()
+            except CaseTimeout:
+                raise
             except Exception as exc:  # pylint: disable=broad-except
                 res['violations'].append({'key': f'{name}:exception:{type(exc).__name__}',
                                           'msg': f'{name} raised {type(exc).__name__}: {exc}'[:400],
